@@ -764,23 +764,32 @@ pub fn s3_addressing(p: &Plan, sink: &mut Sink) {
         }
         v
     };
-    // (index value, garbage for the upper half under 32-bit addressing, segment base)
-    let patterns: Vec<(u64, u64, u64)> = if thorough {
+    // (index value, garbage for the upper half under 32-bit addressing, segment base, target
+    // in the page above 4 GiB). The last group exists for FS/GS forms only: with a base of
+    // 2^32 or one whose sum with the 32-bit offset carries out of bit 31, "truncate, then add
+    // the base" (hardware) and "add the base, then truncate" differ (seed C05b).
+    let patterns: Vec<(u64, u64, u64, bool)> = if thorough {
         vec![
-            (0x10, 0, 0),
-            (0, 0xABCD_EF01_0000_0000, 0x1000),
-            (0xFFFF_FFFF_FFFF_FFF8, 0xFFFF_FFFF_0000_0000, 0x0000_7FFF_FFFF_E000),
-            (0x8000_0000_0000_0000, 0x1_0000_0000, 0x0000_7000_0000_0000),
-            (0x1_0000_0008, 0x8000_0000_0000_0000, 0x10),
-            (0x7FFF_FFFF_FFFF_FFF8, 0x1234_5678_0000_0000, 0x2000_0000),
-            (0xFFFF_FFF8, 0xFFFF_FFFF_0000_0000, 0x0000_0001_8000_0000),
-            (0x2000_0000_0000_0008, 0x7FFF_FFFF_0000_0000, 0x8),
+            (0x10, 0, 0, false),
+            (0, 0xABCD_EF01_0000_0000, 0x1000, false),
+            (0xFFFF_FFFF_FFFF_FFF8, 0xFFFF_FFFF_0000_0000, 0x0000_7FFF_FFFF_E000, false),
+            (0x8000_0000_0000_0000, 0x1_0000_0000, 0x0000_7000_0000_0000, false),
+            (0x1_0000_0008, 0x8000_0000_0000_0000, 0x10, false),
+            (0x7FFF_FFFF_FFFF_FFF8, 0x1234_5678_0000_0000, 0x2000_0000, false),
+            (0xFFFF_FFF8, 0xFFFF_FFFF_0000_0000, 0x0000_0001_8000_0000, false),
+            (0x2000_0000_0000_0008, 0x7FFF_FFFF_0000_0000, 0x8, false),
+            (0x10, 0xABCD_EF01_0000_0000, 0x1_0000_0000, true),
+            (0x8, 0xFFFF_FFFF_0000_0000, 0xFFFF_F000, true),
+            (0xFFFF_FFF8, 0x1234_5678_0000_0000, 0x1_4FFF_F000, true),
+            (0x8000_0008, 0, 0xC000_0000, true),
         ]
     } else {
         vec![
-            (0x10, 0, 0x1000),
-            (0xFFFF_FFFF_FFFF_FFF8, 0xABCD_EF01_0000_0000, 0x0000_7FFF_FFFF_E000),
-            (0x8000_0001_0000_0008, 0xFFFF_FFFF_0000_0000, 0x0000_7000_0000_0000),
+            (0x10, 0, 0x1000, false),
+            (0xFFFF_FFFF_FFFF_FFF8, 0xABCD_EF01_0000_0000, 0x0000_7FFF_FFFF_E000, false),
+            (0x8000_0001_0000_0008, 0xFFFF_FFFF_0000_0000, 0x0000_7000_0000_0000, false),
+            (0x10, 0xABCD_EF01_0000_0000, 0x1_0000_0000, true),
+            (0x8, 0xFFFF_FFFF_0000_0000, 0xFFFF_F000, true),
         ]
     };
     let disp8s: Vec<i64> = if thorough { vec![0x10, -0x10, 0x7F, -0x80, 0] } else { vec![0x10, -0x80] };
@@ -866,21 +875,21 @@ pub fn s3_addressing(p: &Plan, sink: &mut Sink) {
                                 if i.memory_index() == Register::None { "-" } else { "r" }
                             );
                             for disp in disps {
-                                for (iv, hi, sb) in &patterns {
+                                for (iv, hi, sb, high) in &patterns {
+                                    let seg_fsgs = matches!(i.segment_prefix(), Register::FS | Register::GS);
+                                    if *high && !seg_fsgs {
+                                        continue;
+                                    }
                                     if !sink.next() {
                                         continue;
                                     }
                                     let mut s = default_sigma(OFF);
-                                    // segment bases: absolute forms can only reach the target
-                                    // with a small base
-                                    let sbase = if has_regs || i.memory_base() == Register::RIP || i.memory_base() == Register::EIP {
-                                        if has_regs { *sb } else { *sb & 0xFFFF }
-                                    } else {
-                                        *sb & 0xFFFF
-                                    };
+                                    // segment bases: absolute forms can only reach the low
+                                    // target with a small base
+                                    let sbase = if has_regs || *high { *sb } else { *sb & 0xFFFF };
                                     s.fs = sbase;
                                     s.gs = sbase ^ 0x100;
-                                    let target = DEFAULT_TARGET;
+                                    let target = if *high { HI + 0x800 } else { DEFAULT_TARGET };
                                     let pl = match place(&bytes, IP, target, *iv, *disp, *hi, &mut s.gpr, s.fs, s.gs) {
                                         Some(pl) => pl,
                                         None => {
